@@ -34,7 +34,9 @@ ASSUMPTIONS = [
     '(Latin-1, Greek, CJK, emoji, combining marks); text is preserved up to the format\'s encoding: HDF5 = ASCII with one ? per other code point (as the exporter writes today, the column must '
     'still come back), CSV / VO table = unchanged, FITS table = ASCII only (see known findings); '
     'the empty string is not generated: it is not clearly non-numeric text - CSV and astropy\'s FITS-table reader treat it as a missing value (the FITS-table factory then shows it as the text nan); column names are lower-case identifiers every format accepts',
-    'table formats (CSV, FITS table, VO table) are exercised with 1-d data; HDF5 with 1-d, 2-d and 3-d data; gridded FITS with 1-d, 2-d, 3-d data',
+    'table formats (CSV, FITS table, VO table) are exercised with 1-d datasets and with SUBSETS of 2-d / 3-d datasets (one row per selected pixel, C order); a whole n-d dataset is not a table '
+    '(astropy makes vector columns of it) and is outside the domain; HDF5 and gridded FITS with 1-d, 2-d and 3-d data; arrays in native and non-native byte order; chains of two formats '
+    '(the dataset loaded from the first file is the dataset of the second export)',
     'for gridded FITS, which writes one HDU per component and is read back as one dataset per HDU, "order" is the order of the returned datasets',
     'masked-out pixels must come back as a blank value of the dtype kind (NaN for floats; 0 or NaN for integers; empty text), selected pixels unchanged',
     'the "matching data factory" is taken to be both load_data\'s auto-detected factory and the format-specific factory; see known findings for the two classes where they differ',
@@ -124,6 +126,8 @@ def text_as_format(fmt, v):
 
 
 def is_ascii(v):
+    if isinstance(v, (bytes, np.bytes_)):
+        return True
     return all(ord(ch) < 128 for ch in v)
 
 
@@ -220,6 +224,8 @@ def same_values(kind, got, want, mask, rows, fmt):
     got = np.asarray(got)
     if got.dtype.kind == 'S':
         got = np.char.decode(got, 'ascii')
+    if want.dtype.kind == 'S':          # second stage of a chain: the dataset loaded from HDF5 holds ASCII bytes
+        want = np.char.decode(want, 'ascii')
     if want.dtype.kind == 'U' and fmt == 3:
         # text preserved up to the format's encoding: the HDF5 exporter writes ASCII, '?' for every other character;
         # the column itself must come back, in place, with every row
@@ -304,12 +310,12 @@ def judge(case, cols, exp, mask, rows):
     fmt = case['fmt']
     ci = fmt == 4
     names_got = [n.lower() if ci else n for n, _ in cols]
-    names_want = [n for n, _ in exp]
+    names_want = [n.lower() if ci else n for n, _ in exp]
     if names_got != names_want:
         if sorted(names_got) == sorted(names_want) and fmt == 3 and names_got == sorted(names_want):
             # HDF5 files come back in name order: known finding, but the values must still be right
             bymap = dict((n.lower() if ci else n, a) for n, a in cols)
-            for n, want in exp:
+            for n, want in [(a.lower() if ci else a, b) for a, b in exp]:
                 r = same_values(None, bymap[n], want, mask, rows, fmt)
                 if r:
                     return 'component %s: %s' % (n, r), None
@@ -318,8 +324,8 @@ def judge(case, cols, exp, mask, rows):
     for (n, got), (_, want) in zip(cols, exp):
         r = same_values(None, got, want, mask, rows, fmt)
         if r:
-            if (fmt == 0 and len(exp) == 1 and want.dtype.kind == 'U' and r.startswith('text')
-                    and any(' ' in str(v) for v in (want if mask is None else want[mask]).ravel().tolist())):
+            if (fmt == 0 and len(exp) == 1 and want.dtype.kind in 'US' and r.startswith('text')
+                    and any(' ' in (v.decode('ascii') if isinstance(v, bytes) else str(v)) for v in (want if mask is None else want[mask]).ravel().tolist())):
                 return 'component %s: %s' % (n, r), 'csv-single-text-column-with-blank-is-split'
             return 'component %s: %s' % (n, r), None
     return None, None
@@ -369,6 +375,10 @@ def run_case_impl(R, case, idx, session=False):
             continue
         if which == 'auto':
             auto_cols = cols
+            from glue.core import BaseData as _BD
+            first = back if isinstance(back, _BD) else (back[0] if back else None)
+            if first is not None:
+                res['first_dataset'] = [(cid.label, np.asarray(first[cid])) for cid in first.main_components]
         if which == 'auto' and fmt == 1 and rows and nsel == 0 and cols == [] and exp:
             res['problems'].append(('load_data returns no dataset for a FITS table with zero selected rows (the FITS-table factory returns the empty table)',
                                     'fits-table-zero-rows-autoload-returns-nothing'))
@@ -469,11 +479,11 @@ def rand_text(rng, allow_empty=False, unicode=False):
 def rand_col(rng, name, n, fmt, int_dtype):
     kind = rng.choice([0, 0, 1, 1, 2])
     if kind == 0:
-        dt = rng.choice(['float64', 'float64', 'float32'])
+        dt = rng.choice(['float64', 'float64', 'float32', '>f8', '>f4'])       # incl. non-native byte order (what FITS-loaded data holds)
         vals = [None if rng.random() < 0.2 else rng.randrange(-512, 513) / 8.0 for _ in range(n)]
         return (name, 0, dt, vals)
     if kind == 1:
-        lo, hi = (-300, 300) if int_dtype == 'int16' else (-100000, 100000)
+        lo, hi = (-300, 300) if int_dtype in ('int16', '>i2') else (-100000, 100000)
         vals = [rng.choice([0, 0, 1, -1, rng.randrange(lo, hi)]) for _ in range(n)]
         return (name, 1, int_dtype, vals)
     uni = rng.random() < 0.4        # a column with non-ASCII cells next to plain ASCII ones
@@ -483,14 +493,17 @@ def rand_col(rng, name, n, fmt, int_dtype):
 
 def rand_case(rng, fmt=None):
     fmt = rng.randrange(5) if fmt is None else fmt
-    if fmt < 3:
+    r = rng.random()
+    if fmt < 3 and (r < 0.25 or rng.random() < 0.6):
+        # a whole n-d dataset has no meaning as a table (astropy makes vector columns of it): table formats get n-d data
+        # only together with a subset - "the selected pixels", one row each, in C order
         shape = (rng.randrange(1, 7),)
     else:
         shape = rng.choice([(rng.randrange(1, 7),), (2, 3), (3, 2), (2, 2, 2), (1, 4)])
     n = int(np.prod(shape))
     k = rng.randrange(1, 5)
     names = rng.sample(NAMES, k + 1)
-    int_dtype = rng.choice(['int64', 'int64', 'int32', 'int16'])
+    int_dtype = rng.choice(['int64', 'int64', 'int32', 'int16', '>i4', '>i2', '>i8'])
     cols = [rand_col(rng, names[i], n, fmt, int_dtype) for i in range(k)]
     if fmt == 4 and all(c[1] == 2 for c in cols):
         cols[0] = (cols[0][0], 0, 'float64', [rng.randrange(-64, 64) / 8.0 for _ in range(n)])
@@ -498,7 +511,6 @@ def rand_case(rng, fmt=None):
     nums = [i for i, c in enumerate(cols) if c[1] in (0, 1)]
     if nums and rng.random() < 0.5:
         derived = (names[k], rng.choice(nums))
-    r = rng.random()
     if r < 0.25:
         mask = None
     elif r < 0.4:
@@ -508,6 +520,48 @@ def rand_case(rng, fmt=None):
     else:
         mask = [rng.random() < 0.5 for _ in range(n)]
     return {'fmt': fmt, 'shape': list(shape), 'cols': cols, 'derived': derived, 'mask': mask}
+
+
+def second_stage_case(first_dataset, fmt, rng):
+    """chain of formats: the dataset LOADED from the first file (already compared with the original) becomes the dataset of a
+    second export with another format; returns a case or None when the loaded dataset is outside the second format's domain"""
+    cols = []
+    shape = None
+    for name, arr in first_dataset:
+        k = kind_of(arr)
+        if k == 9 or arr.size == 0:
+            return None
+        if shape is None:
+            shape = arr.shape
+        elif arr.shape != shape:
+            return None
+        cols.append((name, k, arr.dtype.str, arr.ravel().tolist()))
+    if not cols or shape is None or len(shape) == 0:
+        return None
+    if fmt == 4 and all(c[1] == 2 for c in cols):
+        return None
+    n = int(np.prod(shape))
+    r = rng.random()
+    if r < 0.3 and not (fmt < 3 and len(shape) > 1):
+        mask = None
+    elif r < 0.4:
+        mask = [True] * n
+    else:
+        mask = [rng.random() < 0.6 for _ in range(n)]
+    return {'fmt': fmt, 'shape': list(shape), 'cols': cols, 'derived': None, 'mask': mask}
+
+
+def run_chain(R, first, fmt2, idx, sub):
+    """stage 1: export `first` (a whole dataset) and load it; stage 2: export the loaded dataset (or a subset of it) with fmt2, load,
+    compare with the loaded dataset.  Returns (res1, case2 or None, res2 or None)"""
+    res1 = run_case_impl(R, first, idx)
+    fd = res1.get('first_dataset')
+    if fd is None or any(k is None for _, k in res1['problems']):
+        return res1, None, None
+    case2 = second_stage_case(fd, fmt2, sub)
+    if case2 is None or not blank_ok(case2):
+        return res1, None, None
+    return res1, case2, run_case_impl(R, case2, idx + 1)
 
 
 def case_key(case):
@@ -536,13 +590,15 @@ def exhaustive_cases(R):
     utext = ('m1', 2, 'U4', ['bq', 'K\u00e4 d', '\u6f22z', 'x\U0001f600'][:n])
     ubase = [base[0], base[1], utext]
     for fmt in range(5):
-        shapes = [(n,)] if fmt < 3 else [(n,), (1, n)] + ([(2, 2)] if n == 4 else [])
+        shapes = [(n,), (1, n), (n, 1)] + ([(2, 2)] if n == 4 else [])
         for shape in shapes:
             for bits in itertools.product([False, True], repeat=n):
                 out.append({'fmt': fmt, 'shape': list(shape), 'cols': list(base), 'derived': ('b_2', 0), 'mask': list(bits)})
                 out.append({'fmt': fmt, 'shape': list(shape), 'cols': list(ubase), 'derived': ('b_2', 0), 'mask': list(bits)})
                 if fmt != 4:
                     out.append({'fmt': fmt, 'shape': list(shape), 'cols': [utext], 'derived': None, 'mask': list(bits)})
+            if fmt < 3 and len(shape) > 1:
+                continue      # whole n-d datasets are not tables
             out.append({'fmt': fmt, 'shape': list(shape), 'cols': list(base), 'derived': ('b_2', 1), 'mask': None})
             out.append({'fmt': fmt, 'shape': list(shape), 'cols': list(ubase), 'derived': ('b_2', 1), 'mask': None})
             if fmt != 4:
@@ -610,7 +666,7 @@ def run(R):
     t0 = time.time()
     cases = [(c, 'exhaustive') for c in exhaustive_cases(R)]
     nexh = len(cases)
-    nrand = R.pick(2600, 20000)
+    nrand = R.pick(2000, 16000)
     for i in range(nrand):
         rng = R.subrng('case', i)
         c = rand_case(rng, fmt=i % 5)
@@ -618,6 +674,7 @@ def run(R):
             continue
         cases.append((c, 'random'))
     batch = []
+    chains = {}
     nsess = 0
     for idx, (case, stream) in enumerate(cases):
         session = (idx % 6 == 0)
@@ -629,6 +686,32 @@ def run(R):
                 ndim=len(case['shape']), columns=len(case['cols']) + (1 if case['derived'] else 0))
         if stream == 'random' and len(R.samples) < 4:
             R.sample({'case': case})
+    # chains of formats: export with one format, load, export the loaded dataset (or a subset) with another, load
+    nchain = 0
+    for i in range(R.pick(260, 2500)):
+        rng = R.subrng('chain', i)
+        f1 = [1, 4, 3, 2, 0][i % 5]          # FITS table / gridded FITS first: what they load holds big-endian arrays
+        first = rand_case(rng, fmt=f1)
+        first['mask'] = None
+        first['derived'] = None
+        if f1 < 3:
+            n1 = rng.randrange(1, 7)
+            first['shape'] = [n1]
+            first['cols'] = [(a, b, dt, (v * 6)[:n1] if len(v) < n1 else v[:n1]) for a, b, dt, v in first['cols']]
+        if f1 == 4:
+            first['cols'] = [c for c in first['cols'] if c[1] != 2][:1] or first['cols'][:1]
+        if not blank_ok(first) or (f1 == 1 and selected_text_non_ascii(first)):
+            continue
+        f2 = rng.choice([f for f in range(5) if f != f1])
+        res1, case2, res2 = run_chain(R, first, f2, 500000 + 2 * i, rng)
+        if case2 is None:
+            continue
+        nchain += 1
+        chain = {'chain': {'first': first, 'fmt': f2}}
+        batch.append((case2, 'chain', res2, 500000 + 2 * i + 1))
+        chains[id(case2)] = chain
+        R.count(('chain', case_key(first), f2, None if case2['mask'] is None else tuple(case2['mask'])), nontrivial=True, stream='chain',
+                chain='%s->%s' % (FMT_NAME[f1], FMT_NAME[f2]), selection=selection_kind(case2))
     lines = [b[2]['line'] for b in batch if b[2].get('line') is not None]
     outs = iter(R.model(lines))
     seen_keys = set()
@@ -643,17 +726,23 @@ def run(R):
                     continue
                 seen_keys.add(key)
                 R.fail('oracle', {'stream': stream, 'case': case}, {'problem': text}, key=key)
+            elif nfail < 3 and stream == 'chain':
+                nfail += 1
+                R.fail('oracle', {'stream': stream, 'chain': chains[id(case)]['chain'], 'second': case}, {'problems': [t for t, k in res['problems'] if k is None]}, key=None)
             elif nfail < 3:
                 nfail += 1
                 small = shrink_case(R, case, lambda c: any(k is None for _, k in run_case_impl(R, c, 900000 + nfail)['problems']))
                 r2 = run_case_impl(R, small, 900100 + nfail)
                 R.fail('oracle', {'stream': stream, 'case': small}, {'problems': [t for t, k in r2['problems'] if k is None] or [text]}, key=None)
-        if corr is not None and not any(k is None for _, k in res['problems']) and nfail < 3:
+        if corr is not None and stream == 'chain' and nfail < 3:
+            nfail += 1
+            R.fail('correspondence', {'stream': stream, 'chain': chains[id(case)]['chain'], 'second': case}, corr)
+        elif corr is not None and not any(k is None for _, k in res['problems']) and nfail < 3:
             nfail += 1
             small = shrink_case(R, case, lambda c: evaluate(R, c, 900200 + nfail)[1] is not None)
             r2, c2 = evaluate(R, small, 900300 + nfail)
             R.fail('correspondence', {'stream': stream, 'case': small}, c2 or corr)
-    R.stream('export_roundtrip', exhaustive_cases=nexh, random_cases=len(cases) - nexh, sessions_by_reference=nsess, wall_s=round(time.time() - t0, 1),
+    R.stream('export_roundtrip', exhaustive_cases=nexh, random_cases=len(cases) - nexh, chain_cases=nchain, sessions_by_reference=nsess, wall_s=round(time.time() - t0, 1),
              exhaustive=False,
              bound='exhaustive: all masks over %d elements x 5 formats x shapes (1-d; 2-d for HDF5 / gridded FITS) on a float/int/text table with a derived column, '
                    'all 6 column orders; random: 1-4 columns, 1..6 rows or shapes (2,3),(3,2),(2,2,2),(1,4), float32/64 with NaN, int16/32/64, ASCII text' % R.pick(3, 4))
@@ -662,6 +751,13 @@ def run(R):
 def replay(R, case):
     import warnings
     warnings.filterwarnings('ignore')
+    if isinstance(case, dict) and 'second' in case:
+        c = dict(case['second'])
+        c['cols'] = [(a, b, dt, [np.nan if (isinstance(v, str) and v == 'nan' and b == 0) else (eval(v) if (isinstance(v, str) and v.startswith("b'")) else v) for v in vals])
+                     for a, b, dt, vals in c['cols']]
+        res, corr = evaluate(R, c, 1)
+        new = [t for t, k in res['problems'] if k is None]
+        return {'case': case, 'oracle_problems': new, 'correspondence': corr, 'violates': bool(new)}
     if not isinstance(case, dict) or 'case' not in case:
         return {'note': 'this replay file records a broken proof / correspondence without a failing input of the property; see its `broken` and `correspondence_cases` fields', 'violates': False}
     c = case['case']
